@@ -20,7 +20,49 @@ def workspace_files(seed: int):
     g = c05_gen.Gen(random.Random(4000 + seed))
     gen_files, _ = g.generate()
     files.update(gen_files)
+    # a type that exists only through an INCLUDE, extended in another file
+    files["shapes.f90"] = "module shapes\n  implicit none\n  include 'shape_types.f90'\nend module shapes\n"
+    files["shape_types.f90"] = "type :: shape_t\n  integer :: id\n  real :: area\nend type shape_t\n"
+    files["circle.f90"] = ("module circle\n  use shapes\n  implicit none\n  type, extends(shape_t) :: circle_t\n    real :: radius\n  end type circle_t\n"
+                           "contains\n  subroutine grow(c)\n    type(circle_t) :: c\n    c%area = c%radius\n  end subroutine grow\nend module circle\n")
     return files
+
+
+# workspaces on which the pinned tree is known to depend on the schedule: each is its own obligation
+KNOWN_CASES = {
+    "nested_shared_include": {
+        "a.f90": "module a_mod\n  implicit none\n  include 'k_inc.f90'\ncontains\n  subroutine sa()\n    kvar = cvar\n  end subroutine sa\nend module a_mod\n",
+        "b.f90": "module b_mod\n  implicit none\n  include 'k_inc.f90'\ncontains\n  subroutine sb()\n    kvar = cvar\n  end subroutine sb\nend module b_mod\n",
+        "k_inc.f90": "integer :: kvar\ninclude 'c_inc.f90'\n",
+        "c_inc.f90": "integer :: cvar\n"},
+    "macro_shared_between_files": {
+        "a_defs.F90": "#define WITH_X 1\nmodule a_mod\n  integer :: a\nend module a_mod\n",
+        "b_uses.F90": "module b_mod\n#ifdef WITH_X\n  integer :: x_var\n#else\n  integer :: y_var\n#endif\nend module b_mod\n"},
+}
+
+
+def run_case(name: str):
+    """all enumeration orders (init) and all opening orders of a small workspace"""
+    import itertools
+    from replay.harness import Workspace
+    files = KNOWN_CASES[name]
+    ws = Workspace({os.path.join("src", n): t for n, t in files.items()})
+    try:
+        ref, ref_name, n = None, None, 0
+        for perm in itertools.permutations(sorted(files)):
+            for mode in ("init", "open"):
+                n += 1
+                got = run_schedule(ws.root, mode, "perm:" + ",".join(perm), files)
+                if ref is None:
+                    ref, ref_name = got, f"{mode} {','.join(perm)}"
+                    continue
+                diff = first_difference(ref, got)
+                if diff:
+                    return {"workspace": files, "schedules": [ref_name, f"{mode} {','.join(perm)}"], "query": diff[0],
+                            "first": diff[1], "second": diff[2]}, n
+        return None, n
+    finally:
+        ws.close()
 
 
 def dump(srv, rw, root, files):
@@ -51,7 +93,7 @@ def run_schedule(base: str, mode: str, arg: str, files: dict):
     names = sorted(files)
     srv, rw = make_server()
     if mode == "init":
-        nthreads, order = arg.split(":")
+        nthreads, order = arg.split(":", 1) if not arg.startswith("perm:") else ("1", arg)
         srv.nthreads = int(nthreads)
         if order != "listing":
             real = LangServer._get_source_files
@@ -60,6 +102,9 @@ def run_schedule(base: str, mode: str, arg: str, files: dict):
                 lst = list(real(self))
                 if order == "reversed":
                     lst.reverse()
+                elif order.startswith("perm:"):
+                    want = order[5:].split(",")
+                    lst.sort(key=lambda p: want.index(os.path.basename(p)))
                 else:
                     random.Random(int(order.replace("shuffle", ""))).shuffle(lst)
                 return lst
@@ -73,6 +118,8 @@ def run_schedule(base: str, mode: str, arg: str, files: dict):
         order = list(names)
         if arg == "reversed":
             order.reverse()
+        elif arg.startswith("perm:"):
+            order = arg[5:].split(",")
         elif arg.startswith("shuffle"):
             random.Random(int(arg.replace("shuffle", ""))).shuffle(order)
         for n in order:
